@@ -264,12 +264,13 @@ func c10Trusted(w *core.WorkerCtx) {
 		s := n.Prev
 		var tip ledger.H
 		var wgt uint64
+		found := false
 		for h := range s.Leaves {
 			if v, ok := s.Vertex(h); ok && v.Weight >= wgt {
-				tip, wgt = h, v.Weight
+				tip, wgt, found = h, v.Weight, true
 			}
 		}
-		if wgt == 0 {
+		if !found {
 			break
 		}
 		var t transaction.Transaction
